@@ -370,6 +370,31 @@ class SInt:
         return f'SInt({self.t})'
 
 
+class SKey(SInt):
+    """An arbitrary hashable value of which only equality is observable (dictionary key, set member,
+    metadata value).  hash() is constant, so Python's dict/set fall back to ``==`` on every probe and
+    ``==`` returns an SBool: containers partition the keys by solver-decided equality (one path per
+    feasible equality pattern) instead of enumerating values."""
+    __slots__ = ()
+
+    def __hash__(self):
+        return 0
+
+    def __eq__(self, o):
+        if isinstance(o, SInt):
+            return SBool(z3.simplify(self.t == o.t))
+        if isinstance(o, bool) or not isinstance(o, int):
+            return False
+        return SBool(z3.simplify(self.t == o))
+
+    def __ne__(self, o):
+        r = self.__eq__(o)
+        return (not r) if isinstance(r, bool) else ~r
+
+    def __repr__(self):
+        return f'SKey({self.t})'
+
+
 def f_real(si, o, f):
     return NotImplemented
 
@@ -994,6 +1019,10 @@ class Explorer:
             self.solver.add(r >= 0)
         return self._reg(name, x)
 
+    def key(self, name):
+        """arbitrary hashable value (equality only)"""
+        return self._reg(name, SKey(z3.Int(name)))
+
     def assume(self, c):
         c = zbool(c)
         if _is_true(c):
@@ -1209,6 +1238,9 @@ class Concrete:
 
     def real(self, name, **kw):
         return self._val(self.given[name])
+
+    def key(self, name):
+        return int(self.given[name])
 
     def choice(self, n, label='choice'):
         if self._ci >= len(self._choices):
